@@ -276,10 +276,13 @@ func (r *DeviceAuthorizationState) GetAMR() []string {
 }
 
 func (r *DeviceAuthorizationState) GetAudience() []string {
-	if !slices.Contains(r.Audience, r.ClientID) {
-		r.Audience = append(r.Audience, r.ClientID)
+	if slices.Contains(r.Audience, r.ClientID) {
+		return r.Audience
 	}
-	return r.Audience
+	// a getter must not modify (or append into the backing array of) stored state
+	audience := make([]string, 0, len(r.Audience)+1)
+	audience = append(audience, r.Audience...)
+	return append(audience, r.ClientID)
 }
 
 func (r *DeviceAuthorizationState) GetAuthTime() time.Time {
